@@ -538,6 +538,78 @@ fn probe(i: usize) -> CaseOutcome {
             }
             pass("re-entrant-executions")
         }
+        7 | 8 => {
+            // one loaded file, executed with different caller globals: a default is used exactly
+            // when the caller gives nothing, whatever an earlier execution was given
+            let lazy = i == 8;
+            let dsl = "global g = \"dflt\"\nglobal h\n(module) @m {\n  node @m.n\n  attr (@m.n) g = g, h = h\n}\n";
+            let file = match load(dsl) {
+                Ok(Ok(f)) => f,
+                _ => return CaseOutcome::Discard("probe file rejected"),
+            };
+            let source = "pass\n";
+            let tree = pysrc::parse(source);
+            let index = TreeIndex::new(&tree);
+            let functions = Functions::stdlib();
+            let mut seen = vec![];
+            for supplied in [None, Some("given"), None, Some("other")] {
+                let mut globals = Variables::new();
+                let _ = globals.add(Identifier::from("h"), Value::String("h".into()));
+                if let Some(v) = supplied {
+                    let _ = globals.add(Identifier::from("g"), Value::String(v.into()));
+                }
+                let config = ExecutionConfig::new(&functions, &globals).lazy(lazy);
+                match call_lib(|| file.execute(&tree, source, &config, &NoCancellation)) {
+                    Err(p) => return failure(&p.signature(), p.message),
+                    Ok(Err(e)) => return failure("probe-fails", format!("{}", e)),
+                    Ok(Ok(g)) => match observe(&g, &index) {
+                        Ok(o) => seen.push(o.nodes[0].attrs.get("g").cloned()),
+                        Err(e) => return failure("bad-graph", e),
+                    },
+                }
+            }
+            // and without `h` the run fails, also after runs that had it
+            let globals = Variables::new();
+            let config = ExecutionConfig::new(&functions, &globals).lazy(lazy);
+            let missing = matches!(call_lib(|| file.execute(&tree, source, &config, &NoCancellation)), Ok(Err(_)));
+            let s = |x: &str| Some(CVal::Str(x.into()));
+            if seen != vec![s("dflt"), s("given"), s("dflt"), s("other")] || !missing {
+                return failure("globals-of-an-earlier-execution-stick", format!("one file executed with different caller globals (lazy={}): saw {:?}, missing global reported: {}", lazy, seen, missing));
+            }
+            pass("different-globals-per-execution")
+        }
+        9 | 10 => {
+            // threads that call `replace` with different patterns at the same time
+            let lazy = i == 10;
+            let dsl = "(identifier) @x {\n  node @x.n\n  attr (@x.n) a = (replace (source-text @x) \"a+\" \"<A>\"), b = (replace (source-text @x) \"[b-z]\" \"-\"), c = (replace (source-text @x) \"(x)(y)\" \"$2$1\")\n}\n";
+            let file = match load(dsl) {
+                Ok(Ok(f)) => f,
+                _ => return CaseOutcome::Discard("probe file rejected"),
+            };
+            let source: String = (0..60).map(|k| format!("aab{}xyaz\n", ["q", "bb", "xy", "a"][k % 4])).collect();
+            let tree = pysrc::parse(&source);
+            let index = TreeIndex::new(&tree);
+            let run_once = || -> Result<MGraph, String> {
+                let functions = Functions::stdlib();
+                let globals = Variables::new();
+                let config = ExecutionConfig::new(&functions, &globals).lazy(lazy);
+                match call_lib(|| file.execute(&tree, &source, &config, &NoCancellation)) {
+                    Err(p) => Err(p.message),
+                    Ok(Err(e)) => Err(format!("{}", e)),
+                    Ok(Ok(g)) => observe(&g, &index),
+                }
+            };
+            let alone = run_once();
+            let results: Vec<Result<MGraph, String>> = std::thread::scope(|sc| {
+                let hs: Vec<_> = (0..8).map(|_| sc.spawn(|| (0..6).map(|_| run_once()).collect::<Vec<_>>())).collect();
+                hs.into_iter().flat_map(|h| h.join().unwrap_or_default()).collect()
+            });
+            if results.len() != 48 || results.iter().any(|r| r != &alone) {
+                let bad = results.iter().filter(|r| *r != &alone).count();
+                return failure("concurrent-replace-differs", format!("{} of {} concurrent executions of a file with three `replace` calls differ from the isolated run (lazy={})", bad, results.len(), lazy));
+            }
+            pass("concurrent-replace")
+        }
         _ => {
             let lazy = i == 6;
             // the re-registered function is the last call of one execution and the first of the next
@@ -616,7 +688,7 @@ fn pinned_address_order() -> CaseOutcome {
 
 pub fn spec(tier: &str) -> Spec {
     let mut s = Spec::new("C12", tier, 1_500, 15_000, 900);
-    s.rule = "per case 1-3 generated files (valid and single-fault) x 1-3 trees. (a) every text is loaded twice (equal AST) and a rejected text whose diagnostic involves hash-ordered collections six times (one diagnostic); (b) the isolated result of every (file, tree, mode) is computed twice on fresh threads with freshly loaded files and must be identical in every observable form (pretty_print text, JSON value, observed graph incl. node numbering, or error text plain and pretty); (c) a history of 4-9 executions on the long-lived worker thread with the files loaded once - mixed files, trees and modes, a fifth of them cancelled at a random poll - where every result, cancelled or not, must equal the isolated one, then 8 concurrent threads sharing one &File, each equal to the isolated result; the caller's Variables are compared before / after every execution. (e) seven fixed probes: a diagnostic does not depend on the texts the thread loaded before; executions started from a caller-supplied function or from a match visitor (re-entrancy, strict / lazy inside strict / lazy) equal the isolated run; a function re-registered by the caller between executions is the one called. (d) 3 (quick) / 8 (thorough) child processes given the same seed must print identical transcripts (observed graphs, pretty output, error texts). evaluations = executions. Non-trivial: >=2 trees, >=2 successful isolated results, a graph with >=2 attributes. Distinct = fingerprint of (files, sources).".into();
+    s.rule = "per case 1-3 generated files (valid and single-fault) x 1-3 trees. (a) every text is loaded twice (equal AST) and a rejected text whose diagnostic involves hash-ordered collections six times (one diagnostic); (b) the isolated result of every (file, tree, mode) is computed twice on fresh threads with freshly loaded files and must be identical in every observable form (pretty_print text, JSON value, observed graph incl. node numbering, or error text plain and pretty); (c) a history of 4-9 executions on the long-lived worker thread with the files loaded once - mixed files, trees and modes, a fifth of them cancelled at a random poll - where every result, cancelled or not, must equal the isolated one, then 8 concurrent threads sharing one &File, each equal to the isolated result; the caller's Variables are compared before / after every execution. (e) eleven fixed probes (incl. one file executed with different caller globals in turn, and 8 threads x 6 executions of a file with three `replace` calls): a diagnostic does not depend on the texts the thread loaded before; executions started from a caller-supplied function or from a match visitor (re-entrancy, strict / lazy inside strict / lazy) equal the isolated run; a function re-registered by the caller between executions is the one called. (d) 3 (quick) / 8 (thorough) child processes given the same seed must print identical transcripts (observed graphs, pretty output, error texts). evaluations = executions. Non-trivial: >=2 trees, >=2 successful isolated results, a graph with >=2 attributes. Distinct = fingerprint of (files, sources).".into();
     s.assumptions = vec![
         "thread interleavings are whatever the OS produces (all state is call-local; this part is a smoke check)".into(),
         "JSON syntax-node ids are per-parse handles: compared within one process on one Tree only".into(),
@@ -629,7 +701,7 @@ pub fn run_check(tier: &str) -> i32 {
     let spec = spec(tier);
     let thorough = tier == "thorough";
     let r0 = run_fixed(&spec, &[0usize], |_| pinned_address_order(), |_| vec![PINNED_TAG, 0]);
-    let probes: Vec<usize> = (0..7).collect();
+    let probes: Vec<usize> = (0..11).collect();
     let rp = run_fixed(&spec, &probes, |i| probe(*i), |i| vec![PROBE_TAG, *i as u32]);
     let r1 = merge_results(merge_results(r0, rp), run_tapes(&spec, case));
     let r2 = cross_process(&spec, if thorough { 8 } else { 3 }, if thorough { 400 } else { 120 });
